@@ -3,6 +3,7 @@
   One case per input line, one reply line per case. CORE LEAN ONLY.
 -/
 import Algobra.Model.Hist
+import Algobra.Model.Names
 open Algobra
 
 def showExcept {β} (f : β → String) : Except Kind β → String
@@ -191,9 +192,35 @@ def runHist {α : Type} (desc : FieldDesc) (F : FOps α) (uSpec bSpec : String) 
       bring := fun i => if i == 1 then { bBase with ideal := bi } else bBase }
     -- `escr@f` (harness: call Elements(), then scribble over everything returned) is a pure accessor: no state
     -- change, the reply is the number of elements.  It is interpreted here, not by the proved `step`.
+    -- `eN=any…@f arg`: the generic constructor `Field.Element(interface{})`. It only dispatches on the dynamic
+    -- type of its argument, so it is rewritten here into the constructor it dispatches to (uint → `u`, int → `s`,
+    -- string → `str`; []uint / []int: extension fields only, the value is Σ cᵢ·aⁱ computed with the field's own
+    -- operations; every other type, and slices for prime and binary fields: an Input error, no object).
     let stepD := fun (st : St α) (line : String) =>
       if line.startsWith "escr@" then (st, "ok " ++ toString (env.fld (atIdx line)).card)
-      else step env desc st (parseOp line)
+      else
+        let toks := (line.trimAscii.toString.splitOn " ").filter (· != "")
+        match (toks.headD "").splitOn "=" with
+        | [dstS, opAt] =>
+          let op := (opAt.splitOn "@").getD 0 ""
+          if op.startsWith "any" then
+            let idx := atIdx opAt
+            let Fi := env.fld idx
+            let dst := regNum dstS
+            let a0 := toks.getD 1 ""
+            let isExt := match desc with | .ext .. => true | _ => false
+            let horner (cs : List α) : α := cs.foldr (fun c acc => Fi.add (Fi.mul acc Fi.gen) c) Fi.zero
+            let items := if a0 == "-" || a0 == "" then [] else a0.splitOn "."
+            if op == "anyu" then step env desc st (.eCtor dst idx "u" a0)
+            else if op == "anyi" then step env desc st (.eCtor dst idx "s" a0)
+            else if op == "anystr" then step env desc st (.eCtor dst idx "str" a0)
+            else if op == "anysl" && isExt then
+              step env desc st (.eCtor dst idx "enc" (Fi.enc (horner (items.map fun t => Fi.ofNat t.toNat!))))
+            else if op == "anyisl" && isExt then
+              step env desc st (.eCtor dst idx "enc" (Fi.enc (horner (items.map fun t => Fi.ofInt (parseInt t)))))
+            else (st, "err Input")
+          else step env desc st (parseOp line)
+        | _ => step env desc st (parseOp line)
     let (_, outs) := ops.foldl (fun (st, outs) line =>
       let (st', r) := stepD st line
       (st', outs ++ [if snap then r ++ " ## " ++ snapshot env st' else r])) (({} : St α), [])
@@ -268,6 +295,38 @@ def runShape {α : Type} (F : FOps α) : List String → String
     " ".intercalate (l.1.toArray.qsort (· < ·)).toList
   | _ => "bad-op"
 
+/-- `setvar u|b|bin <hex name>[,<hex name>] …`: a sequence of setter calls on one fresh ring / field; replies of
+    the calls, the names the object has at the end, and a printed sample -/
+def hexOf (s : String) : String :=
+  if s.isEmpty then "EMPTY" else
+  String.ofList (s.toList.flatMap fun c =>
+    let n := c.toNat
+    let d := fun k => if k < 10 then Char.ofNat (48 + k) else Char.ofNat (87 + k)
+    [d (n / 16), d (n % 16)])
+
+def runSetVar : List String → String
+  | "u" :: names =>
+    let (v, outs) := names.foldl (fun (v, outs) h =>
+      let (v', r) := Names.setVarName v (unhex h)
+      (v', outs ++ [showExcept (fun _ => "") r])) ("X", [])
+    let F := primeOps 7
+    " ".intercalate (outs.map (·.trimAscii.toString)) ++ " ; " ++ hexOf v ++ " ; " ++ hexOf (UPoly.toStr F v [1, 0, 3])
+  | "bin" :: names =>
+    let (v, outs) := names.foldl (fun (v, outs) h =>
+      let (v', r) := Names.binSetVarName v (unhex h)
+      (v', outs ++ [showExcept (fun _ => "") r])) ("a", [])
+    " ".intercalate (outs.map (·.trimAscii.toString)) ++ " ; " ++ hexOf v ++ " ; " ++ hexOf (Bin.toStr v 3 6)
+  | "b" :: pairs =>
+    let (v, outs) := pairs.foldl (fun (v, outs) h =>
+      let ps := h.splitOn ","
+      let (v', r) := Names.setVarNames v (unhex (ps.getD 0 ""), unhex (ps.getD 1 ""))
+      (v', outs ++ [showExcept (fun _ => "") r])) (("X", "Y"), [])
+    let F := primeOps 7
+    let R : BPoly.Ring Nat := { F := F, ord := ⟨.lex, true⟩, varNames := v, ideal := none }
+    " ".intercalate (outs.map (·.trimAscii.toString)) ++ " ; " ++ hexOf v.1 ++ "," ++ hexOf v.2 ++ " ; " ++
+      hexOf (BPoly.toStr R [((2, 1), 3), ((0, 1), 1), ((0, 0), 5)])
+  | _ => "bad-op"
+
 def handle (line : String) : String :=
   let line := line.trimAscii.toString
   let (head, rest) := match line.splitOn " | " with
@@ -285,6 +344,7 @@ def handle (line : String) : String :=
     " ; ".intercalate (go t)
   | ["conwayin", hex, p, n] => showExcept natsStr (Conway.lookupIn (unhex hex) p.toNat! n.toNat!)
   | "order" :: t => runOrder t
+  | "setvar" :: t => runSetVar t
   | "shape" :: fd :: t =>
     (match parseFieldDesc fd with
     | some (.prime p) => runShape (primeOps p) t
